@@ -14,7 +14,21 @@
             make_numpy_collection says [item, in/tgt]; both are accepted, the second is reported here),
             M:helper_unavailable (private helper not importable).
    A batch of an empty index list may be refused (the statement does not say); if it is returned it
-   must be empty. *)
+   must be empty.
+   Audit 2 (argument aliasing / representations), all Layer M because the statement is about the returned
+   images only and annotates `maze: SolvedMaze`, `bool` options, `idxs: list[int] | None`:
+     argmod (item, ds, batch, helper) = the call changed one of the caller's own objects (the maze's arrays /
+            generation_meta, the base dataset's config, added_params, the index list, the image)
+            -> M:argument_modified.  The damage is Layer P all the same: the records that follow on the same
+            object are judged against the object as it was BEFORE (the driver projects it once).
+     alias  (helper) = the returned image shares memory with the argument -> M:result_aliases_argument
+     call = "npbool" (item): options handed over as numpy.bool_ - any failure -> M:option_representation
+            ("kw" keywords, "pos" positional, "dflt" only the options that differ from the documented
+            defaults (True, True, False) are passed: Layer P)
+     rep (batch) = how the index list was handed over: "list" (also "none", and "npints" = a list of numpy
+            ints: the annotated type, Layer P); "tuple" / "nd64" / "nd32" (other sequences: refusing them is
+            M:batch_index_representation, a RETURNED batch must be right - Layer P); "range" / "gen"
+            (one-shot / lazy iterables: everything M:batch_index_representation). *)
 EXTENDS Raster, Json, IOUtils, SequencesExt
 Log == ndJsonDeserialize(IOEnv.VERIF_LOG)
 
@@ -25,7 +39,7 @@ ItemClauses(m, ric, ext, eao, res, inp, tgt) ==
   IF res # "ok" THEN {"raises"}
   ELSE StageClauses("input", inp, InputImg(m), ric, ext) \cup StageClauses("target", tgt, TargetImg(m, eao), ric, ext)
 
-BatchClauses(items, b) ==
+BatchCore(items, b) ==
   LET idxs == b.idxs  n == Len(idxs)  bo == b.out IN
   IF \E k \in 1..n : items[idxs[k] + 1].res # "ok" THEN {}          \* reported per item
   ELSE IF n = 0 THEN (IF b.res # "ok" \/ Len(bo) = 0 \/ \A a \in 1..Len(bo) : Len(bo[a]) = 0 THEN {} ELSE {"batch_order"})
@@ -36,24 +50,36 @@ BatchClauses(items, b) ==
           /\ \A k \in 1..n : Len(bo[k]) = 2 /\ bo[k][1] = items[idxs[k] + 1].inp /\ bo[k][2] = items[idxs[k] + 1].tgt THEN {"M:batch_layout"}
   ELSE {"batch_order"}
 
+ArgMod(r) == IF r.argmod THEN {"M:argument_modified"} ELSE {}
+BatchClauses(items, b) ==
+  LET cs == BatchCore(items, b) IN
+  ArgMod(b) \cup
+  (IF cs = {} THEN {}
+   ELSE IF b.rep \in {"range", "gen"} THEN {"M:batch_index_representation"}
+   ELSE IF b.rep \in {"tuple", "nd64", "nd32"} /\ cs = {"batch_raises"} THEN {"M:batch_index_representation"}
+   ELSE cs)
+
 DsClauses(r) ==
   IF \E i \in 1..Len(r.mazes) : ~MazeOK(r.mazes[i]) THEN {"M:input_malformed"}
   ELSE IF r.res # "ok" THEN {"construct_raises"}
   ELSE IF Len(r.items) # Len(r.mazes) THEN {"M:input_malformed"}
   ELSE UNION {ItemClauses(r.mazes[i], r.ric, r.ext, r.eao, r.items[i].res, r.items[i].inp, r.items[i].tgt) : i \in 1..Len(r.mazes)}
        \cup UNION {BatchClauses(r.items, r.batches[k]) : k \in 1..Len(r.batches)}
+       \cup ArgMod(r)
 
 HelperClauses(r) ==
   IF r.res = "na" THEN {"M:helper_unavailable"}
   ELSE IF ~ImageOK(r.img) THEN {"M:input_malformed"}
   ELSE IF r.res # "ok" THEN {"helper_raises"}
-  ELSE IF r.kind = "ric" THEN (IF r.out = RemoveIsolated(r.img) THEN {} ELSE {"remove_isolated"})
-  ELSE LET e == Extend(r.img) IN
-       IF r.out = e THEN {} ELSE IF SameShape(r.out, e) THEN {"extend_pixels"} ELSE {"extend_shape"}
+  ELSE ArgMod(r) \cup (IF r.alias THEN {"M:result_aliases_argument"} ELSE {}) \cup
+       (IF r.kind = "ric" THEN (IF r.out = RemoveIsolated(r.img) THEN {} ELSE {"remove_isolated"})
+        ELSE LET e == Extend(r.img) IN
+             IF r.out = e THEN {} ELSE IF SameShape(r.out, e) THEN {"extend_pixels"} ELSE {"extend_shape"})
 
 Clauses(r) ==
   IF r.kind = "item" THEN (IF ~MazeOK(r.maze) THEN {"M:input_malformed"}
-                           ELSE ItemClauses(r.maze, r.ric, r.ext, r.eao, r.res, r.inp, r.tgt))
+                           ELSE LET cs == ItemClauses(r.maze, r.ric, r.ext, r.eao, r.res, r.inp, r.tgt) IN
+                                ArgMod(r) \cup (IF r.call = "npbool" /\ cs # {} THEN {"M:option_representation"} ELSE cs))
   ELSE IF r.kind = "ds" THEN DsClauses(r)
   ELSE IF r.kind \in {"ric", "ext"} THEN HelperClauses(r)
   ELSE {"M:input_malformed"}
